@@ -133,6 +133,10 @@ Definition no_dash_last (s : bytes) : Prop := no_dash_first (rev s).
 
 Definition all_ascii_ws (w : bytes) : Prop := Forall (fun b => is_ascii_ws b = true) w.
 
+(* the first byte is neither `-` nor ASCII whitespace *)
+Definition plain_first (s : bytes) : Prop :=
+  match s with b :: _ => b <> dash /\ is_ascii_ws b = false | [] => True end.
+
 (* `s` reads as `-? ws* name ws* -? end …` (the shape of a raw / endraw tag after the start
    delimiter) *)
 Definition tag_named (name e s : bytes) : Prop :=
@@ -159,8 +163,8 @@ Section WF.
       /\ (r = false -> no_dash_last body)
       /\ forall p, (p < length (body ++ mk r))%nat -> ~ occurs (ce d) (body ++ mk r ++ ce d) p
     | Raw l il body ir r =>
-      (* with a block end that begins with `-` an unmarked tag cannot be spelled *)
-      (il = false -> no_dash_first (be d)) /\ (r = false -> no_dash_first (be d))
+      (* with a block end that begins with `-` or a blank an unmarked tag cannot be spelled *)
+      (il = false -> plain_first (be d)) /\ (r = false -> plain_first (be d))
       (* no block start inside the body begins an endraw tag, none straddles the body's end *)
       /\ forall p, (p < length body)%nat -> occurs (bs d) (body ++ bs d) p ->
            (p + 2 <= length body)%nat
